@@ -142,6 +142,31 @@ def run_session(prop, seed, tier, replay):
             "assumptions": COMMON_ASSUMPTIONS + ["instances are native Config values in one process (the wasm Rewriter object holds exactly that)"]}
 
 
+def run_package(prop, seed, tier, replay):
+    import package_pipeline as pk
+    res = pk.run(seed, tier)
+    vs = res["verdicts"].get(prop, [])
+    st = res["stats"]
+    samples = []
+    for rid, v, d in vs:
+        if v == "ok" and len(samples) < 3:
+            samples.append({"history": res["cases"][rid]["history"], "event": res["cases"][rid]["event"], "verdict": v})
+    cov = {"states": st["tlc_distinct"], "transitions": st["tlc_states"], "traces_validated_against_impl": st["histories"],
+           "evaluations": st["events"], "samples": samples, "histories_enumerated_by_tlc": st["histories"],
+           "rule": "Package.tla (cache / text-in-use state machine of main.js CacheRewriter + js/source-map) is model-checked "
+                   "(LookupUsesLatest) and TLC enumerates every history of <= 3 (quick) / 4 (thorough) steps over 2 files x 6 "
+                   "versions (modified x2, not modified, syntax error, chained through an inline original map, eval frame) x "
+                   "{rewrite, throw}; each is replayed against the real main.js / js/source-map / js/stack-trace in Node (native "
+                   "results from the driver), exceptions are thrown at generator-known lines of the text in use under both "
+                   "prepareStackTrace paths, plus on-disk path/line lookups (mapped, no map, broken map, missing file, unknown "
+                   "file); TracePackage.tla steps the model along the events; non-trivial = a throw inside a modified text",
+           "exhaustive": True}
+    return {"verdicts": vs, "cases": res["cases"], "level": "model_checking", "coverage": cov,
+            "assumptions": COMMON_ASSUMPTIONS + ["the wasm module is replaced by a table of results of the native driver; "
+                                                 "lru-cache by a 10-line LRU with the same get/set/max contract",
+                                                 "Node 20 V8 stack-trace API"]}
+
+
 def merge(a, b, pa, pb):
     """both halves of a property must hold: verdict lists are concatenated (record ids prefixed)"""
     cases = {pa + k: v for k, v in a["cases"].items()}
@@ -165,6 +190,10 @@ def run_property(prop, seed, tier, replay=None):
         if prop in DYN_PROPS and (half == "dyn" or prop not in STATIC_PROPS):
             return run_dynamic(prop, seed, tier, replay)
         return run_static(prop, seed, tier, replay)
+    if prop == "C11":
+        return run_package(prop, seed, tier, None)
+    if prop == "C12":
+        return merge(run_static(prop, seed, tier, None), run_package(prop, seed, tier, None), "static:", "pkg:")
     if prop == "C16":
         return run_session(prop, seed, tier, None)
     if prop == "C13":
